@@ -45,6 +45,8 @@ def cmp_facts(conds):
         d = a - b
         if not out:
             op = {"Gt": "LtE", "GtE": "Lt", "Lt": "GtE", "LtE": "Gt", "Eq": "NotEq", "NotEq": "Eq"}[op]
+        if op in ("Lt", "LtE"):
+            d, op = -d, {"Lt": "Gt", "LtE": "GtE"}[op]  # d < 0 is -d > 0
         facts.append((d, op))
     return facts
 
